@@ -10,6 +10,7 @@
 from __future__ import annotations
 
 import ast
+import time
 from fractions import Fraction
 
 import numpy as np
@@ -138,14 +139,24 @@ class EfermiObjective:
             r = it.w.uf("statesum", [args[0]], "real")
             return r
 
+        def accumulator(it):
+            """The accumulated local: the one name the loop body updates with `+=` / `x = x + ...` (role read off the AST, not its name)."""
+            node = it.loop_node
+            names = {n.target.id for n in node.body if isinstance(n, ast.AugAssign) and isinstance(n.op, ast.Add) and isinstance(n.target, ast.Name)}
+            names |= {n.targets[0].id for n in node.body if isinstance(n, ast.Assign) and isinstance(n.targets[0], ast.Name) and isinstance(n.value, ast.BinOp)
+                      and isinstance(n.value.op, ast.Add) and any(isinstance(x, ast.Name) and x.id == n.targets[0].id for x in (n.value.left, n.value.right))}
+            if len(names) != 1:
+                raise OutsideSubset(f"k-point loop without a single accumulated local: {sorted(names)}")
+            return names.pop()
+
         def inv(it, env, idx):
-            v = env["occ_sum"]
+            v = env[accumulator(it)]
             e = it.as_z3(v, "real")
             if e is None:
-                raise OutsideSubset("occ_sum is not numeric")
+                raise OutsideSubset("the accumulated electron count is not numeric")
             return e == PS(idx)
 
-        specs = {("for", "range(occ.Nk)", "ik"): LoopSpec({"occ_sum": "real"}, inv)}
+        specs = {("for", "range(occ.Nk)", "*"): LoopSpec(lambda it, env: {accumulator(it): "real"}, inv, havoc_assigned=True)}
         ext = dict(NUM_EXT)
         ext.update({"root_scalar": root_scalar, "xp.sum": xp_sum, "xp.min": lambda it, a, k: it.w.uf("xp.min", a, "real"),
                     "xp.max": lambda it, a, k: it.w.uf("xp.max", a, "real")})
@@ -537,20 +548,73 @@ def _filled_world(Nspin, fractional=False):
     return w, occ, base
 
 
-def _while_spec(row_index, target_of_row):
-    """Loop contract of the overflow-removal loops `while rest[...] > 0` (see DESIGN appendix B).
+def _overflow_loop(node):
+    """Structural key of the overflow-removal loops: `while <rest>[<row>]? > 0:` whose body counts a local up by one."""
+    t = node.test
+    return (isinstance(node, ast.While) and isinstance(t, ast.Compare) and len(t.ops) == 1 and isinstance(t.ops[0], ast.Gt)
+            and isinstance(t.comparators[0], ast.Constant) and t.comparators[0].value == 0 and _roles(node) is not None)
 
-    ghost: C = number of columns, f = filling value, the row being emptied from the right. Invariant:
-      i >= 1, rest >= 0, total(row) - rest == target(row), rest <= f*(C - i + 1),
+
+def _roles(node):
+    """The names the loop uses for its roles, read off its AST: (rest variable, row-index expression or None, counter variable)."""
+    t = node.test.left
+    if isinstance(t, ast.Name):
+        rest, row = t.id, None
+    elif isinstance(t, ast.Subscript) and isinstance(t.value, ast.Name):
+        rest, row = t.value.id, t.slice
+    else:
+        return None
+    counters = [n.target.id for n in ast.walk(node) if isinstance(n, ast.AugAssign) and isinstance(n.op, ast.Add) and isinstance(n.target, ast.Name)
+                and isinstance(n.value, ast.Constant) and n.value.value == 1]
+    if len(set(counters)) != 1:
+        return None
+    if row is None:
+        # the row is the one the body indexes: self._f[<row>, -counter]
+        rows = {ast.unparse(n.slice.elts[0]) for n in ast.walk(node) if isinstance(n, ast.Subscript) and isinstance(n.slice, ast.Tuple) and len(n.slice.elts) == 2
+                and ast.unparse(n.value) == "self._f"}
+        if len(rows) != 1:
+            return None
+        row = ast.parse(rows.pop(), mode="eval").body
+    return rest, row, counters[0]
+
+
+def _while_spec():
+    """Loop contract of the overflow-removal loops `while rest[...] > 0` (see DESIGN appendix B), stated over ROLES that are read off the loop's
+    AST (the variable compared with 0, the counter that is incremented, the row of self._f that is indexed), not over the names the code uses.
+
+    ghost: C = number of columns, f = filling value (parameter of the method), tgt = total(row) - rest in the state in which the loop is entered.
+    Invariant: i >= 1, rest >= 0, total(row) - rest == tgt, rest <= f*(C - i + 1),
       columns 0..C-i of the row still hold f, columns C-i+1.. hold 0; every other row is untouched."""
+    from pycv.wp.execute import Vec
+
+    def roles(it):
+        r = _roles(it.loop_node)
+        if r is None:
+            raise OutsideSubset("overflow loop without the expected roles")
+        return r
 
     def get(it, env):
+        rest_name, row_expr, cnt = roles(it)
         self_ = env["self"]
         mat = self_.fields["_f"]
         if not isinstance(mat, Mat2):
             raise OutsideSubset("fillings are not an abstract array")
-        r = row_index(env)
+        r = it.eval(row_expr, env)
+        if isinstance(r, Sym):
+            raise OutsideSubset("symbolic row index")
+        r = int(r)
         return mat, mat.rows[r], r
+
+    def rest_of(it, env):
+        rest_name, row_expr, cnt = roles(it)
+        rest = env[rest_name]
+        if isinstance(rest, Vec):
+            rest = rest[get(it, env)[2]]
+        return it.as_z3(rest, "real")
+
+    def on_entry(it, env):
+        mat, row, r = get(it, env)
+        env["__tgt"] = row.total - rest_of(it, env)
 
     def havoc_row(it, env, tag):
         mat, row, r = get(it, env)
@@ -558,28 +622,25 @@ def _while_spec(row_index, target_of_row):
         return None
 
     def havoc_rest(it, env, tag):
-        cur = env["rest"]
-        from pycv.wp.execute import Vec
-
+        cur = env[roles(it)[0]]
         if isinstance(cur, Vec):
-            r = row_index(env)
+            r = get(it, env)[2]
             new = Vec(cur)
             new[r] = it.w.fresh(f"rest{tag}", "real")
             return new
         return it.w.fresh(f"rest{tag}", "real")
 
+    def vars_(it, env):
+        rest_name, row_expr, cnt = roles(it)
+        return {rest_name: havoc_rest, cnt: "int", "self._f": havoc_row}
+
     def inv(it, env, idx):
         mat, row, r = get(it, env)
         f = it.as_z3(env["f"], "real")
         C = row.nz()
-        i = it.as_z3(env["i"], "int")
-        rest = env["rest"]
-        from pycv.wp.execute import Vec
-
-        if isinstance(rest, Vec):
-            rest = rest[r]
-        rest = it.as_z3(rest, "real")
-        tgt = target_of_row(it, env, r)
+        i = it.as_z3(env[roles(it)[2]], "int")
+        rest = rest_of(it, env)
+        tgt = env["__tgt"]
         c = z3.Int("c!inv")
         return z3.And(
             i >= 1, rest >= 0, row.total - rest == tgt, rest <= f * z3.ToReal(C - i + 1),
@@ -589,9 +650,9 @@ def _while_spec(row_index, target_of_row):
 
     def variant(it, env):
         mat, row, r = get(it, env)
-        return row.nz() - it.as_z3(env["i"], "int") + 1
+        return row.nz() - it.as_z3(env[roles(it)[2]], "int") + 1
 
-    return LoopSpec({"rest": havoc_rest, "i": "int", "self._f": havoc_row}, inv, variant)
+    return LoopSpec(vars_, inv, variant, on_entry=on_entry)
 
 
 class Fillings:
@@ -610,24 +671,7 @@ class Fillings:
             base = [c for c in base if "%" not in str(c)] + [mag.e >= -1, mag.e <= 1]
         ne = occ.fields["_Nelec"].e
         sp = occ.fields["_spin"].e if isinstance(occ.fields["_spin"], Sym) else z3.IntVal(0)
-        if self.fractional:
-            def target(it, env, r):
-                el = env["elecs"]
-                return it.as_z3(el[r], "real")
-
-            specs = {("while", "rest[spin] > 0"): _while_spec(lambda env: int(env["spin"]), target)}
-        else:
-            def target(it, env, r):
-                # integer fillings: only the last row is emptied; its target is Nelec minus the (full) other rows
-                self_ = env["self"]
-                mat = self_.fields["_f"]
-                others = z3.RealVal(0)
-                for k, row in enumerate(mat.rows):
-                    if k != len(mat.rows) - 1:
-                        others = others + row.total
-                return z3.ToReal(self_.fields["_Nelec"].e) - others
-
-            specs = {("while", "rest > 0"): _while_spec(lambda env: -1, target)}
+        specs = {("while", _overflow_loop): _while_spec()}
 
         def run(it):
             from contracts.state_common import clone
@@ -648,6 +692,7 @@ class Fillings:
                 return Result(UNDECIDED, backend="z3", detail=f"{label}: z3 unknown")
             return self._refute(f"obligation `{label}` fails", model, ne, sp, w)
         npost = 0
+        slow = {}
         fval = 2.0 / Nspin
         for r in res:
             if r.outcome == "cut":
@@ -671,15 +716,32 @@ class Fillings:
                 goals.append(("up - down == spin", mat.rows[0].total - mat.rows[1].total == z3.ToReal(sp)))
             if mag is not None:
                 goals.append(("(up - down) / Nelec == requested magnetization", mat.rows[0].total - mat.rows[1].total == mag.e * z3.ToReal(ne)))
+            if Nspin == 2:
+                # the stored number of unpaired electrons agrees with the fillings (it is what a later refill starts from)
+                spf = s.fields["_spin"]
+                spz = r.interp.as_z3(spf, "real") if isinstance(spf, Sym) else z3.RealVal(spf)
+                d = mat.rows[0].total - mat.rows[1].total
+                if mag is None:
+                    # together with `up - down == spin` (and spin >= 0): the stored spin still is the requested one
+                    goals.append(("stored spin is the requested spin", spz == z3.ToReal(sp)))
+                else:
+                    goals.append(("stored spin == |up - down|", spz == z3.If(d >= 0, d, -d)))
             for label, g in goals:
+                t0 = time.time()
                 v, model = check_valid(w, r.path.pc, g, timeout_ms=30000)
+                slow[label] = round(max(slow.get(label, 0.0), time.time() - t0), 2)
                 npost += 1
                 if v == "proved":
                     continue
                 if v == "unknown":
+                    # no verdict from the solver: the contract is still evaluated natively; only a concrete failing input is a refutation
+                    ok, info = self.replay(dict(Nspin=self.Nspin, fractional=self.fractional))
+                    if ok:
+                        return Result(REFUTED, backend="native-contract-evaluation", witness=dict(Nspin=self.Nspin, clause=label), replayed=True, replay_info=info,
+                                      detail=f"fill(): post-condition `{label}` fails natively (z3 gave no verdict)")
                     return Result(UNDECIDED, backend="z3", detail=f"post-condition `{label}`: z3 unknown")
                 return self._refute(f"post-condition `{label}` fails", model, ne, sp, w)
-        return Result(DISCHARGED, backend="z3", stats=dict(paths=len(res), loop_obligations=nobl, postconditions=npost))
+        return Result(DISCHARGED, backend="z3", stats=dict(paths=len(res), loop_obligations=nobl, postconditions=npost, slowest_goal_seconds=slow))
 
     def _refute(self, msg, model, ne, sp, w):
         wit = dict(Nspin=self.Nspin, fractional=self.fractional)
@@ -707,6 +769,27 @@ class Fillings:
         eminus.config.backend = "numpy"
         eminus.config.verbose = "critical"
         Nspin = wit["Nspin"]
+        if self.magnetization:
+            for ne, m in itertools.product((1, 2, 3, 5, 8), (0.5, 0.25, -0.5, 0.1, 1.0, 0.0)):
+                o = Occupations()
+                o.Nelec, o.Nspin = ne, 2
+                o.wk = [0.5, 0.5]
+                try:
+                    o.fill(None, m)
+                except Exception as e:  # noqa: BLE001
+                    return True, dict(Nelec=ne, magnetization=m, raised=f"{type(e).__name__}: {e}")
+                f = np.asarray(o.f, dtype=float)
+                d = float(f[0, 0].sum() - f[0, 1].sum())
+                bad = []
+                if abs(d - m * ne) > 1e-9:
+                    bad.append(f"up - down = {d} != m Nelec = {m * ne}")
+                if abs(float(o.spin) - abs(d)) > 1e-9:
+                    bad.append(f"stored spin {float(o.spin)} != |up - down| = {abs(d)}")
+                if abs(float(np.sum(np.asarray(o.wk)[:, None, None] * f)) - ne) > 1e-9:
+                    bad.append("k-weighted sum != Nelec")
+                if bad:
+                    return True, dict(Nelec=ne, magnetization=m, violated=bad, f=f[0].tolist())
+            return False, dict(note="post-conditions hold natively on the scanned grid of (Nelec, magnetization)")
         cands = []
         if "Nelec" in wit:
             cands.append((wit["Nelec"], wit.get("spin", 0), wit.get("occ._bands", 0), wit.get("smearing", 0.0)))
@@ -736,6 +819,8 @@ class Fillings:
                 bad.append(f"filling outside [0, {2 / Nspin}]")
             if Nspin == 2 and abs(float(f[0, 0].sum() - f[0, 1].sum()) - sp) > 1e-9:
                 bad.append(f"up-down {float(f[0, 0].sum() - f[0, 1].sum())} != spin {sp}")
+            if Nspin == 2 and abs(float(o.spin) - abs(float(f[0, 0].sum() - f[0, 1].sum()))) > 1e-9:
+                bad.append(f"stored spin {float(o.spin)} != |up - down|")
             if f.shape != (2, Nspin, o.Nstate):
                 bad.append(f"shape {f.shape}")
             if bad:
@@ -743,7 +828,102 @@ class Fillings:
         return False, dict(note="post-conditions hold natively on the scanned grid of (Nelec, spin, bands, smearing)")
 
 
+class ExplicitFillings:
+    """occ.f = <explicit array>: Nelec, charge, Nspin, Nstate and spin are re-determined from the array. The real setter is executed on a
+    2 x 3 array of SYMBOLIC non-negative fillings with an integral total (numpy code without loops over the states: shape-generic);
+    post-conditions: Nelec == total, charge changes by the opposite of the electron-count change, Nstate == columns, spin == |sum(up) - sum(down)|."""
+
+    def __call__(self, ob, tier, seed):
+        from contracts.c10 import Arr
+        from contracts.state_common import clone
+
+        try:
+            w, occ, base = _filled_world(2, False)
+            f = Arr((2, 3))
+            for a in range(2):
+                for b in range(3):
+                    f.a[a, b] = named(w, f"f{a}{b}", "real")
+            tot = sum((f.a[a, b].e for a in range(2) for b in range(3)), z3.RealVal(0))
+            up = sum((f.a[0, b].e for b in range(3)), z3.RealVal(0))
+            dw = sum((f.a[1, b].e for b in range(3)), z3.RealVal(0))
+            N = z3.Int("Ntot")
+            base = [c for c in base if "%" not in str(c)] + [f.a[a, b].e >= 0 for a in range(2) for b in range(3)] + [f.a[a, b].e <= 1 for a in range(2) for b in range(3)] + [tot == z3.ToReal(N)]
+            from contracts.c10 import ext_table
+
+            ext = ext_table(w)
+            ext.update({"xp.atleast_2d": lambda it, a, k: a[0], "xp.asarray": lambda it, a, k: a[0], "xp.is_array": lambda it, a, k: isinstance(a[0], Arr)})
+            ne0 = occ.fields["_Nelec"].e
+            ch0 = occ.fields["_charge"]
+            ch0 = ch0.e if isinstance(ch0, Sym) else z3.IntVal(int(ch0))
+
+            def run(it):
+                s = clone(occ)
+                it.set_attr(s, "f", f)
+                return None, s
+
+            res = explore(w, run, assumptions=base, ext=ext, max_paths=64)
+            n = 0
+            for r in res:
+                if r.outcome == "cut":
+                    continue
+                if r.outcome != "return":
+                    raise OutsideSubset(f"path ended with {r.outcome}: {r.value}")
+                s = r.state
+                it = r.interp
+
+                def z(v, kind="real"):
+                    e = it.as_z3(v, kind)
+                    if e is None:
+                        raise OutsideSubset(f"field is not numeric: {v!r}")
+                    return e
+
+                d = up - dw
+                goals = [("Nelec == sum of the fillings", z(s.fields["_Nelec"]) == tot),
+                         ("charge changes by the opposite of the electron-count change", z(s.fields["_charge"]) - z3.ToReal(ch0) == z3.ToReal(ne0) - tot),
+                         ("Nstate == number of columns", z(s.fields["_Nstate"]) == 3), ("Nspin == number of rows", z(s.fields["_Nspin"]) == 2),
+                         ("spin == |sum(up) - sum(down)|", z(s.fields["_spin"]) == z3.If(d >= 0, d, -d))]
+                for label, g in goals:
+                    v, model = check_valid(w, r.path.pc, g, timeout_ms=20000)
+                    n += 1
+                    if v != "proved":
+                        wit = dict(clause=label)
+                        ok, info = self.replay(wit)
+                        return Result(REFUTED if (v == "refuted" and ok) else UNDECIDED, backend="z3", witness=wit, replayed=ok, replay_info=info, solver_output=str(model)[:1000],
+                                      detail=f"occ.f = explicit array: post-condition `{label}` fails")
+            if n == 0:
+                return Result(UNDECIDED, backend="engine-Z", detail="no post-condition reached")
+            return Result(DISCHARGED, backend="z3", stats=dict(paths=len(res), postconditions=n))
+        except (OutsideSubset, PyRaise, TypeError, AttributeError, KeyError, ValueError, IndexError, z3.Z3Exception) as e:
+            ok, info = self.replay({})
+            if ok:
+                return Result(REFUTED, backend="native-contract-evaluation", witness=dict(case="explicit arrays"), replayed=True, replay_info=info,
+                              detail=f"occ.f = explicit array: attributes do not agree with the array ({type(e).__name__}: {e})")
+            return Result(UNDECIDED, backend="engine-Z", detail=f"outside subset: {type(e).__name__}: {e}")
+
+    def replay(self, wit):
+        import eminus
+        from eminus.occupations import Occupations
+
+        eminus.config.backend = "numpy"
+        eminus.config.verbose = "critical"
+        bad = []
+        for arr in ([[1, 0], [0, 1]], [[1, 1, 0], [1, 0, 1]], [[1, 1, 1], [1, 0, 0]], [[0.5, 0.5, 1], [1, 0, 0]], [[1, 0.5], [0.25, 0.25]], [[0, 0, 1], [1, 1, 0]]):
+            o = Occupations()
+            o.Nelec, o.Nspin = 2, 2
+            c0, n0 = o.charge, o.Nelec
+            o.f = arr
+            a = np.asarray(arr, float)
+            want = dict(Nelec=int(a.sum()), spin=abs(a[0].sum() - a[1].sum()), Nstate=a.shape[1], Nspin=2, charge=c0 + n0 - int(a.sum()))
+            got = dict(Nelec=o.Nelec, spin=float(o.spin), Nstate=o.Nstate, Nspin=o.Nspin, charge=o.charge)
+            if any(abs(float(want[k]) - float(got[k])) > 1e-12 for k in want):
+                bad.append(dict(f=arr, expected=want, got=got))
+        return bool(bad), dict(check="attributes re-determined from an explicit filling array", failing=bad[:3])
+
+
 def _register_fill():
+    register(Obligation(name="C13.f_setter.explicit_array", prop=PROP, engine="Z", functions=["eminus.occupations:Occupations.f", "eminus.occupations:Occupations._update_from_fillings"],
+                        run=ExplicitFillings(), assumes=("engineZ", "z3", "numpy-structural"),
+                        doc="occ.f = explicit 2 x Nstate array (symbolic values, Nstate = 3): Nelec, charge, Nstate, Nspin and spin = |sum(up) - sum(down)| follow from the array"))
     Z = ("engineZ", "z3")
     for Nspin in (1, 2):
         register(Obligation(name=f"C13.fill.integer.Nspin{Nspin}", prop=PROP, engine="Z",
